@@ -97,7 +97,7 @@ class Check:
     def spec_violation(self, res, label):
         for inv in res.violated:
             self.violation(f"spec|{inv}|{label}", f"TLC reports {inv} violated in {label}",
-                           {"kind": "tlc", "run": label, "output_tail": res.output[-3000:]})
+                           {"kind": "tlc", "run": label, "output_tail": res.output[-60000:]})
 
     # --- finish ------------------------------------------------------------------------------
     def finish(self, rule: str, level="model_checking") -> int:
